@@ -857,7 +857,9 @@ class InspectFunction(object):
             # Evaluation call: get the argument and returns the function interaction for this call.
             if len(node.args) != 1:
                 raise DDSException(f"Wrong number of args: expected 1, got {node.args}")
-            store_path = cls._retrieve_store_path(node.args[0], mod, gctx, local_path)
+            store_path = cls._retrieve_store_path(
+                node.args[0], mod, gctx, local_path, var_names
+            )
             _logger.debug(f"inspect_call:eval: store_path: {store_path}")
             # The path must be known at this point of the traversal: either it is external to this
             # evaluation (resolved from the store beforehand) or it was produced by an earlier call.
@@ -903,7 +905,9 @@ class InspectFunction(object):
                 raise DDSException(
                     f"Wrong number of args: expected 2+, got {node.args}"
                 )
-            store_path = cls._retrieve_store_path(node.args[0], mod, gctx, local_path)
+            store_path = cls._retrieve_store_path(
+                node.args[0], mod, gctx, local_path, var_names
+            )
             called_path_ast = node.args[1]
             if isinstance(called_path_ast, ast.Name):
                 called_path_symbol = node.args[1].id  # type: ignore
@@ -978,6 +982,7 @@ class InspectFunction(object):
         mod: ModuleType,
         gctx: EvalMainContext,
         local_path: LocalDepPath,
+        var_names: Optional[Set[LocalVar]] = None,
     ) -> DDSPath:
         if isinstance(local_path_node, ast.Constant):
             # Just a string, directly access it.
@@ -987,6 +992,16 @@ class InspectFunction(object):
             return DDSPathUtils.create(local_path_node.s)
         elif isinstance(local_path_node, ast.Name):
             store_path_symbol = local_path_node.id
+            if var_names is not None and store_path_symbol in var_names:
+                # A parameter or a local variable (it may shadow a module variable of the same name):
+                # the analysis does not know its value.
+                raise DDSException(
+                    f"Invalid path {store_path_symbol} encountered in {local_path} (module {mod}): it is a local "
+                    f"variable or a parameter of the function. "
+                    f"Suggestion: the path to a node can only be a string, a Path object or a "
+                    f"variable name of the module that points to a string or Path object.",
+                    DDSErrorCode.STORE_PATH_NOT_SUPPORTED,
+                )
         else:
             raise DDSException(
                 f"Invalid path type: {type(local_path_node)} encountered in {local_path} (module {mod}). "
